@@ -33,8 +33,10 @@ Theorem acked_durable_crash : forall g c0 ops sched n t,
             sst_eq (abs (reopen c0 (crash n (commits tr)))) (spec_run (abs c0) (firstn j ops)).
 Proof. exact acked_durable_crash_pf. Qed.
 
-(* Any number of lifetimes on an initially empty database, each starting with Init of the same
-   valid seeds, each with its own workload, schedule and kill time (also inside Init):
+(* Any number of lifetimes on an initially empty database, each starting with any number of
+   FAILING Init calls (wrong-type seed, callback error, unencodable seed: [InitErr]; empty or
+   duplicate seed id: [Init] of invalid seeds) followed by Init of the same valid seeds, each with
+   its own workload, schedule and kill time (also inside Init); a failed Init never counts:
    at most one Init transaction is ever durable, no seed id is written twice by Init, and either
    the marker is absent and no value at all is stored, or the marker is present and the one
    durable Init transaction wrote all seeds and the marker - never half of them. *)
@@ -140,6 +142,23 @@ Example init_once_nonvacuous :
   get (KVal [115; 50]) (run_all ex_g [] ls) = None /\
   get (KVal [115; 49]) (run_all ex_g [] ls) = Some ([122], [118]).
 Proof. vm_compute. repeat split. Qed.
+
+(* failing Inits (unencodable seed after one seed was set, duplicate seed id) change nothing; the
+   good Init after them seeds everything once *)
+Example failing_inits_nonvacuous :
+  let bad := [([115; 49], ([120], [])); ([115; 49], ([121], []))] in
+  let ops := [InitErr 1; Init bad; Init ex_seeds; Delete [115; 50]; InitErr 0; Init ex_seeds] in
+  let l1 := (ops, ex_sched, 2%nat) in let l2 := (ops, ex_sched, 100%nat) in
+  starts_with_init ex_seeds l1 /\
+  run_all ex_g [] [l1] = [] /\ acks (life_trace ex_g [] l1) = 1%nat /\
+  length (init_commits (trace_all ex_g [] [l1; l2])) = 1%nat /\
+  get (KVal [115; 49]) (run_all ex_g [] [l1; l2]) = Some ([120], []) /\
+  get (KVal [115; 50]) (run_all ex_g [] [l1; l2]) = None.
+Proof.
+  split; [exists [InitErr 1; Init [([115; 49], ([120], [])); ([115; 49], ([121], []))]], [Delete [115; 50]; InitErr 0; Init ex_seeds];
+          split; [reflexivity|repeat constructor]|].
+  vm_compute. repeat split.
+Qed.
 
 (* a kill between value commit and index commit leaves the index stale; RebuildIndexes repairs it *)
 Example stale_index_repaired :
